@@ -16,7 +16,7 @@ implicit, the first row of every `fit` and the data given to `refine` have `F` f
 branching factors are at least 2 -/
 def Op.WF (F : Nat) : Op → Prop
   | .fit rows labels => labels = none ∧ ∀ r0, rows.head? = some r0 → r0.length = F
-  | .refine _ data _ => ∀ r ∈ data, r.length = F
+  | .refine _ data _ _ => ∀ r ∈ data, r.length = F
   | .setMerge _ _ _ b => ∀ b', b = some b' → 2 ≤ b'
   | .setBf b => 2 ≤ b
   | _ => True
@@ -29,7 +29,7 @@ theorem runOK_of_wf (pol : Cfg → Policy) (F : Nat) : ∀ (ops : List Op) (e : 
     have hop := h op (by simp)
     cases op with
     | fit rows labels => exact ⟨hop.1, hop.2, fun _ _ _ _ => trivial, fun _ _ _ _ _ => trivial⟩
-    | refine n data im => exact ⟨hop, fun _ _ _ _ => trivial, fun _ _ _ _ _ => trivial⟩
+    | refine n data im srt => exact ⟨hop, fun _ _ _ _ => trivial, fun _ _ _ _ _ => trivial⟩
     | recluster it extra perms stop => exact fun _ _ _ _ _ _ _ _ => trivial
     | setMerge c t th b => exact hop
     | setBf b => exact hop
@@ -83,7 +83,7 @@ theorem C01_reset (pol : Cfg → Policy) (e : Est) : (stepWith pol e .reset).1 =
 /-! Non-vacuity: a concrete history with a failing fit, a refinement, a re-clustering, a
 change of settings, deletion of internal nodes and a reset meets the hypotheses. -/
 example : ∀ op ∈ ([.fit [[true, true, false], [true, false, false], [true], [false, true, true]] none,
-      .refine 1 [[true, true, false], [true, false, false]] 0, .recluster 2 (1/20) [some [1, 0], none] true,
+      .refine 1 [[true, true, false], [true, false, false]] 0 true, .recluster 2 (1/20) [some [1, 0], none] true,
       .setMerge (some (.name "tolerance-diameter")) (some (1/10)) none (some 3), .delInternal, .reset,
       .fit [[false, false, true]] none] : List Op), op.WF 3 := by
   intro op hop
